@@ -20,6 +20,8 @@ import (
 	"path/filepath"
 	"sort"
 	"strings"
+	"sync"
+	"time"
 
 	"github.com/hashicorp/consul/agent/structs"
 	sh "github.com/hashicorp/consul/verifharness/internal/storeh"
@@ -111,8 +113,12 @@ func replicaChild(logPath string) {
 	l := readLog(logPath)
 	h := sh.New()
 	w := bufio.NewWriter(os.Stdout)
+	pace, _ := time.ParseDuration(os.Getenv("VERIF_PACE"))
 	for _, e := range l {
 		res := applyEntry(h, e)
+		if pace > 0 {
+			time.Sleep(pace) // this replica applies the log at another pace: nothing replicated may depend on it
+		}
 		fmt.Fprintf(w, "%s %s\n", sh.Digest(res), sh.Digest(sh.Dump(h.Store())))
 	}
 	w.Flush()
@@ -120,7 +126,7 @@ func replicaChild(logPath string) {
 
 func runChild(logPath string, gomaxprocs string) [][2]string {
 	cmd := exec.Command(os.Args[0], "replica", "-log", logPath)
-	cmd.Env = append(os.Environ(), "GOMAXPROCS="+gomaxprocs, "TZ=Pacific/Kiritimati", "VERIF_CHILD=1")
+	cmd.Env = append(os.Environ(), "GOMAXPROCS="+gomaxprocs, "TZ=Pacific/Kiritimati", "VERIF_CHILD=1", "VERIF_PACE=25ms")
 	out, err := cmd.Output()
 	if err != nil {
 		fatal("replica child failed: %v", err)
@@ -137,9 +143,8 @@ func runChild(logPath string, gomaxprocs string) [][2]string {
 
 // ---------------------------------------------------------------- C01
 
-func c01One(hid int, l []logEntry, logPath string, rec *recorder) {
+func c01One(hid int, l []logEntry, child [][2]string, rec *recorder) {
 	a1, a2 := sh.New(), sh.New()
-	child := runChild(logPath, "1")
 	if len(child) != len(l) {
 		fatal("child replica applied %d of %d entries", len(child), len(l))
 	}
@@ -435,10 +440,27 @@ func main() {
 			hs = append(hs, hist{l, p})
 		}
 	}
+	var children [][][2]string
+	if mode == "c01" {
+		// the paced replicas of all histories run concurrently, each in its own OS process
+		children = make([][][2]string, len(hs))
+		sem := make(chan struct{}, 12)
+		var wg sync.WaitGroup
+		for i := range hs {
+			wg.Add(1)
+			go func(i int) {
+				defer wg.Done()
+				sem <- struct{}{}
+				children[i] = runChild(hs[i].path, "1")
+				<-sem
+			}(i)
+		}
+		wg.Wait()
+	}
 	for hid, h := range hs {
 		switch mode {
 		case "c01":
-			c01One(hid, h.l, h.path, rec)
+			c01One(hid, h.l, children[hid], rec)
 		case "c02":
 			var cuts []int
 			if *ncuts <= 0 || *ncuts >= len(h.l) {
